@@ -19,6 +19,7 @@ POOL = ['s0', 's1', 's2', 's3', 's4']
 TRIGGERS = ['e0', 'e1', 'e2', 'e3']
 CONDS = ['c0', 'c1', 'c2']
 CBS = ['cb0', 'cb1', 'cb2']
+RETRIG = ['cb5', 'cb6', 'cb7']      # state / transition callbacks that fire an event on the same model
 
 
 class ParseError(Exception):
@@ -299,8 +300,27 @@ def gen_case(rng, nested):
         'initial': rng.choice(tops),
         'conds': {c: rng.random() < 0.8 for c in CONDS},
         'n_models': rng.choice([1, 1, 2]),
+        'queued': rng.random() < 0.25,
+        'retrig': {},
         'ops': [],
     }
+    if not case['enum'] and rng.random() < 0.4:
+        # callbacks that fire a further event on the same model: on_enter of states, `after` of transitions
+        # (on_exit is left out: an event fired while the source is being left makes the engine itself move the
+        # model twice, see Props/C16.lean `Settled`)
+        index = []
+
+        def collect(sts):
+            for st in sts:
+                index.append(st)
+                collect(st['children'])
+        collect(states)
+        for cb in rng.sample(RETRIG, rng.randint(1, 2)):
+            case['retrig'][cb] = rng.choice(TRIGGERS)
+            if rng.random() < 0.7:
+                rng.choice(index)['enter'].append(cb)
+            else:
+                rng.choice(case['transitions'])['after'] = [cb]
     if case['enum']:
         for s in states:
             s['label'] = None
@@ -322,11 +342,19 @@ def gen_case(rng, nested):
                 ev = rng.choice(TRIGGERS)
             case['ops'].append(['trigger', mi, ev])
         elif r < 0.82:
-            st = _gen_state(rng, 's%d' % fresh, 0 if rng.random() < 0.5 else 2, nested)
-            fresh += 1
-            case['ops'].append(['add_state', st])
-            cur_names += rel_paths(st)
-            cur_tops.append(st['name'])
+            # add_states with a LIST: a compound definition or a joined 'parent_child' name first, plain states after
+            items = []
+            for k in range(rng.choice([1, 2, 2, 3])):
+                if nested and rng.random() < (0.25 if k == 0 else 0.1):
+                    items.append({'join': rng.choice(cur_tops), 'leaf': 's%d' % fresh})
+                    cur_names.append(items[-1]['join'] + SEP + items[-1]['leaf'])
+                else:
+                    st = _gen_state(rng, 's%d' % fresh, 0 if (k == 0 and rng.random() < 0.6) else 2, nested)
+                    items.append(st)
+                    cur_names += rel_paths(st)
+                    cur_tops.append(st['name'])
+                fresh += 1
+            case['ops'].append(['add_states', items])
         elif r < 0.92:
             t = _gen_trans(rng, cur_names, tops=cur_tops)
             case['ops'].append(['add_transition', t])
@@ -410,6 +438,8 @@ def trans_arg(t):
         d['conditions'] = list(t['conditions'])
     if t['unless']:
         d['unless'] = list(t['unless'])
+    if t.get('after'):
+        d['after'] = list(t['after'])
     return d
 
 
@@ -422,14 +452,30 @@ class Run(object):
         self.states = copy.deepcopy(case['states'])       # current description of the state tree
         conds = case['conds']
 
+        run = self
+
         class Model(object):
-            pass
+            # every assignment of the state attribute is recorded: the transition in progress (innermost) at that
+            # moment is the last executed transition — independent of what the graph code was told
+            @property
+            def state(self):
+                return self._state
+
+            @state.setter
+            def state(self, value):
+                self._state = value
+                run._assigned(self)
         for c in CONDS:
             setattr(Model, c, (lambda v: (lambda self, *a, **k: v))(conds[c]))
-        for c in CBS:
+        for c in CBS + RETRIG:
             setattr(Model, c, lambda self, *a, **k: None)
+        for c, ev in case.get('retrig', {}).items():
+            setattr(Model, c, (lambda e: (lambda self, *a, **k: run._retrigger(self, e)))(ev))
+        self.models = []
+        self.stack = {}
+        self.budget = 0
         self.models = [Model() for _ in range(case['n_models'])]
-        self.pending = {}
+        self.stack = {i: [] for i in range(len(self.models))}
         self.steps = {i: [] for i in range(len(self.models))}
         self.last_src = {i: None for i in range(len(self.models))}     # (scope prefix path, stored source path)
         cls = machine_class(self.nested)
@@ -438,6 +484,7 @@ class Run(object):
                   graph_engine='mermaid', show_conditions=o['show_conditions'],
                   show_auto_transitions=o['show_auto'], show_state_attributes=o['show_attrs'],
                   auto_transitions=o['auto_transitions'], ignore_invalid_triggers=True, send_event=True,
+                  queued=bool(case.get('queued')),
                   before_state_change=self._before, after_state_change=self._after)
         if case['enum']:
             en = enum.Enum('States', [s['name'] for s in case['states']])
@@ -453,16 +500,36 @@ class Run(object):
         return next(i for i, m in enumerate(self.models) if m is model)
 
     def _before(self, event_data):
+        # machine-level before_state_change runs right before Transition._change_state (only the transition's own
+        # `before` callbacks, which never fire events here, come in between): the graph's `begin`
         tr = event_data.transition
         pre = tuple(path_of(x)[0] for x in getattr(event_data.machine, 'prefix_path', []))
-        self.pending[self._idx(event_data.model)] = (pre, tr.source, tr.dest)
+        i = self._idx(event_data.model)
+        self.stack[i].append((pre, tr.source, tr.dest))
+        if tr.dest is not None:
+            self.steps[i].append(('begin', pre, path_of(tr.source), path_of(tr.dest)))
 
     def _after(self, event_data):
+        # recorded after the transition's `after` callbacks; events those fire are complete transitions that reset
+        # the styles themselves, and `cur` is read now, so the resulting styles are those of the true order
         i = self._idx(event_data.model)
-        pre, src, dst = self.pending.pop(i)
+        pre, src, dst = self.stack[i].pop()
         if dst is not None:
-            self.steps[i].append(('change', pre, path_of(src), path_of(dst), flatten_state(event_data.model.state)))
-            self.last_src[i] = (pre, path_of(src))
+            self.steps[i].append(('finish', flatten_state(event_data.model.state)))
+
+    def _assigned(self, model):
+        if model not in self.models:
+            return
+        i = self._idx(model)
+        if self.stack.get(i):
+            pre, src, dst = self.stack[i][-1]
+            if dst is not None:
+                self.last_src[i] = (pre, path_of(src))
+
+    def _retrigger(self, model, ev):
+        if self.budget > 0:
+            self.budget -= 1
+            model.trigger(ev)
 
     def regen_all(self):
         for i, m in enumerate(self.models):
@@ -476,7 +543,28 @@ class Run(object):
             if kind == 'trigger':
                 # ignore_invalid_triggers=True: unknown / invalid triggers return False; anything raised here
                 # comes from the engine in mid-transition (other properties) and ends the history
+                self.budget = 3
+                for st in self.stack.values():
+                    del st[:]
                 self.models[op[1]].trigger(op[2])
+            elif kind == 'add_states':
+                args = []
+                for it in op[1]:
+                    if 'join' in it:
+                        args.append(it['join'] + SEP + it['leaf'])
+                    else:
+                        a = state_arg(it)
+                        args.append(a['name'] if list(a) == ['name'] else a)
+                self.machine.add_states(args)
+                for it in op[1]:
+                    if 'join' in it:
+                        parent = next(s for s in self.states if s['name'] == it['join'])
+                        parent['children'].append({'name': it['leaf'], 'label': None, 'final': False, 'enter': [],
+                                                   'exit': [], 'initial': None, 'parallel': False, 'children': [],
+                                                   'transitions': []})
+                    else:
+                        self.states.append(copy.deepcopy(it))
+                self.regen_all()
             elif kind == 'add_state':
                 self.machine.add_states(state_arg(op[1]))
                 self.states.append(copy.deepcopy(op[1]))
@@ -564,9 +652,11 @@ def enc_state(st, pre, rows):
 
 
 def enc_step(s):
-    if s[0] == 'change':
-        return [0] + enc_nats(s[1]) + enc_nats(s[2]) + enc_nats(s[3]) + enc_list(s[4], enc_nats)
-    return [1] + enc_list(s[1], enc_nats)
+    if s[0] == 'begin':
+        return [0] + enc_nats(s[1]) + enc_nats(s[2]) + enc_nats(s[3])
+    if s[0] == 'finish':
+        return [1] + enc_list(s[1], enc_nats)
+    return [2] + enc_list(s[1], enc_nats)
 
 
 def enc_request(run, mi, roi):
